@@ -110,8 +110,9 @@ Qed.
 
 (* WHOLE HANDLERS: for every handler function of css/handlers.go whose body is a disjunction of conditions on the value
      values := []string{..} | splitVals := splitValues(value) | splitVals := strings.Split(value, " ")     (bindings)
-     if COND { return true } ... return COND,   COND ::= R.MatchString(value) | OtherHandler(value) | in(splitVals, values|colorValues)
-   (122 functions serving 157 of the 213 table entries; the translator recognises the shape statement by statement, orders the
+     if COND { return true } ... return COND,   COND ::= R.MatchString(value) | OtherHandler(value) | in(splitVals, values|colorValues) | in([]string{value}, values)
+          | recursiveCheck(splitVals, usedFunctions), splitVals also strings.Split(value, ";") (CInSep)
+   (141 functions serving 180 of the 213 table entries; the translator recognises the shape statement by statement, orders the
    definitions by their calls and compares splitValues and in with their expected source text), the modelled handler accepts no
    hostile value, whatever its length.  The models are tied to the real handlers by the correspondence run. *)
 Definition not_hostile (v : Bytes.bytes) : Prop := matches hostile (Utf8.runes v) = false.
@@ -126,9 +127,11 @@ Proof.
   rewrite forallb_forall in K. specialize (K c Hc).
   pose proof handler_separators_unmarked as S. rewrite forallb_forall in S. specialize (S _ Hin). cbn [snd] in S.
   rewrite forallb_forall in S. specialize (S c Hc).
-  destruct c as [nm|fn|kw|kw|kw|sep mx fns]; cbn [cond_data_ok cond_keywords cond_sep_ok] in *; try exact I;
+  destruct c as [nm|fn|kw|kw|kw|sep mx fns|sep kw]; cbn [cond_data_ok cond_keywords cond_sep_ok] in *; try exact I;
     try (intros k Hk; apply forallb_D_nil; rewrite forallb_forall in K; exact (K k Hk)).
-  apply negb_true_iff in S. exact S.
+  - apply negb_true_iff in S. exact S.
+  - split; [apply negb_true_iff in S; exact S|].
+    intros k Hk. apply forallb_D_nil. rewrite forallb_forall in K. exact (K k Hk).
 Qed.
 
 Lemma acceptor_not_hostile nm v : acceptor css_acceptors nm v = true -> not_hostile v.
@@ -152,11 +155,11 @@ Proof.
 Qed.
 
 (* every call in the kept definitions goes to an earlier one (the model never falls back to "unknown handler"); on the pinned
-   tree 137 handler functions are recognised and the kept ones serve at least 160 of the 213 table entries *)
+   tree 148 handler functions are recognised and the 141 kept ones serve 180 of the 213 table entries (lower bounds below) *)
 Definition kept_entries : nat :=
   List.length (filter (fun e => existsb (fun h => String.eqb (fst h) (snd e)) css_defs_kept) default_style_handlers).
 Example C18_handlers_resolved_and_coverage :
-  calls_resolved css_defs_kept [] = true /\ Nat.leb 160 kept_entries = true /\ Nat.leb 125 (List.length css_defs_kept) = true.
+  calls_resolved css_defs_kept [] = true /\ Nat.leb 178 kept_entries = true /\ Nat.leb 140 (List.length css_defs_kept) = true.
 Proof. repeat split; vm_compute; reflexivity. Qed.
 
 Theorem C18_unknown_property : get_default_handler_is_table_lookup_else_base = true /\ base_handler_is_return_false = true.
